@@ -184,7 +184,7 @@ Qed.
 
 Lemma login_step_refused c s e t a :
   snd (allow c s t) = false ->
-  login_step c s e t a = (s, {| status := 429; backend_called := false |}).
+  login_step c s e t a = (s, {| status := 429; backend_called := false; lookups := 0 |}).
 Proof.
   unfold login_step, allow.
   destruct ((C c <=? B c) && (- p c <? advance c s t - C c)); simpl; [discriminate|reflexivity].
@@ -263,3 +263,74 @@ Proof.
   unfold login_step, allow.
   destruct ((C c <=? B c) && (- p c <? advance c s t - C c)); cbn [fst snd backend_called T last]; [auto|discriminate].
 Qed.
+
+(* ---- lookups: one per token, whatever the backend answers ---- *)
+Definition areq_time (r : entry * Z * answers) : Z := snd (fst r).
+
+Lemma ask_once a : ask 1 a = (1, first_answer a).
+Proof. unfold ask. destruct (first_answer a); reflexivity. Qed.
+
+(* the code's checkUserPassword (one try) is login_step on the first answer *)
+Lemma login_step_tries_code c s e t a :
+  login_step_tries code_tries c s e t a = login_step c s e t (first_answer a).
+Proof.
+  unfold login_step_tries, login_step, code_tries. destruct (allow c s t) as [s' ok].
+  destruct ok; [|reflexivity]. rewrite ask_once. unfold status_of.
+  destruct (first_answer a); reflexivity.
+Qed.
+
+(* every attempt that is let through performs exactly one lookup, every refused one none: for every request
+   sequence and EVERY answer stream of the backend (good, bad, failing always or now and then) *)
+Theorem one_lookup_per_token c : forall (reqs : list (entry * Z * answers)) s,
+  map lookups (login_run_tries code_tries c s reqs)
+  = map (fun ok : bool => if ok then 1 else 0) (decisions c s (map areq_time reqs)).
+Proof.
+  induction reqs as [|[[e t] a] r IH]; intros s; [reflexivity|].
+  cbn [login_run_tries map decisions areq_time fst snd].
+  unfold login_step_tries, code_tries. destruct (allow c s t) as [s' ok]. destruct ok.
+  - rewrite ask_once. cbn [map lookups]. rewrite IH. reflexivity.
+  - cbn [map lookups]. rewrite IH. reflexivity.
+Qed.
+
+Lemma lookups_calls c t0 t1 : forall (reqs : list (entry * Z * answers)) s,
+  lookups_in t0 t1 (map areq_time reqs) (login_run_tries code_tries c s reqs)
+  = calls c s t0 t1 (map areq_time reqs).
+Proof.
+  induction reqs as [|[[e t] a] r IH]; intros s; [reflexivity|].
+  cbn [login_run_tries map calls areq_time fst snd].
+  unfold login_step_tries, code_tries. destruct (allow c s t) as [s' ok]. destruct ok.
+  - rewrite ask_once. cbn [lookups_in lookups]. rewrite IH. cbn [andb].
+    destruct ((t0 <=? t) && (t <=? t1)); reflexivity.
+  - cbn [lookups_in lookups andb]. rewrite IH. destruct ((t0 <=? t) && (t <=? t1)); reflexivity.
+Qed.
+
+(* the bound of the property counted in LOOKUPS (invocations of the backend), not in attempts *)
+Theorem lookups_window c t_init (reqs : list (entry * Z * answers)) t0 t1 :
+  wf c -> nondecr_from t_init (map areq_time reqs) -> t0 <= t1 ->
+  lookups_in t0 t1 (map areq_time reqs) (login_run_tries code_tries c (init c t_init) reqs) * C c
+    < B c + (t1 - t0) * p c + p c.
+Proof. intros W Hnd H01. rewrite lookups_calls. apply bucket_window; assumption. Qed.
+
+(* one retry after an error: against a backend that keeps failing, twelve guesses at one instant
+   on a fresh limiter (burst 10, one token per second) cost twenty lookups *)
+Definition retry_cfg : cfg := mkcfg 1 1 10.
+Definition retry_burst : list (entry * Z * answers) :=
+  map (fun e => (e, 5, [PwError; PwError; PwError]))
+      [Form; BasicAuth; Form; BasicAuth; Form; BasicAuth; Form; BasicAuth; Form; BasicAuth; Form; BasicAuth].
+
+Lemma retry_exceeds :
+  nondecr_from 0 (map areq_time retry_burst) /\
+  B retry_cfg + (5 - 5) * p retry_cfg + p retry_cfg
+    <= lookups_in 5 5 (map areq_time retry_burst) (login_run_tries 2 retry_cfg (init retry_cfg 0) retry_burst) * C retry_cfg /\
+  lookups_in 5 5 (map areq_time retry_burst) (login_run_tries 2 retry_cfg (init retry_cfg 0) retry_burst) = 20.
+Proof. vm_compute. repeat split; discriminate. Qed.
+
+Lemma retry_on_error_refuted : exists c t_init (reqs : list (entry * Z * answers)) t0 t1,
+  wf c /\ nondecr_from t_init (map areq_time reqs) /\ t0 <= t1 /\
+  B c + (t1 - t0) * p c + p c
+    <= lookups_in t0 t1 (map areq_time reqs) (login_run_tries 2 c (init c t_init) reqs) * C c.
+Proof.
+  exists retry_cfg, 0, retry_burst, 5, 5. destruct retry_exceeds as [Hn [Hb _]].
+  split; [unfold wf, retry_cfg, mkcfg; simpl; lia|]. split; [exact Hn|]. split; [lia|exact Hb].
+Qed.
+
